@@ -311,6 +311,7 @@ pub fn run_backoff(c: &BackoffCase) -> CaseResult {
     let ghost = addr_of(77);
     net.configure_peer(0, ghost);
     let mut last_dial = net.now;
+    let mut last_start = net.now;
     let mut dials = 0u64;
     let mut max_gap = 0i64;
     let new_ping = |net: &mut Net<Packet>| -> bool {
@@ -326,15 +327,21 @@ pub fn run_backoff(c: &BackoffCase) -> CaseResult {
         net.tick();
         if new_ping(&mut net) {
             if silent_for > 0 {
+                // a new attempt (its first ping follows a silence): start-to-start distance of attempts is the back-off
                 dials += 1;
+                let gap = net.now - last_start;
+                if gap > 3600 {
+                    return Err(Fail::new("backoff_exceeds_hour", format!("attempt at t=+{} starts {} s after the previous one", net.now - START_TIME, gap)));
+                }
+                max_gap = max_gap.max(gap);
+                last_start = net.now;
             }
-            max_gap = max_gap.max(net.now - last_dial);
             last_dial = net.now;
             silent_for = 0;
         } else {
             silent_for += 1;
         }
-        if net.now - last_dial > 3601 {
+        if net.now - last_dial > 3600 {
             return Err(Fail::new("backoff_exceeds_hour", format!("no dial attempt for {} s at t=+{}", net.now - last_dial, net.now - START_TIME)));
         }
     }
